@@ -16,6 +16,7 @@ func scenElect(voters []uint64, nonvoters []uint64, maxTerm uint64, dev int, cra
 		Menu: simMenu{Timeouts: true, MaxTerm: maxTerm, Drops: true, Dups: true, Crashes: crashes > 0},
 		MaxDev:  dev,
 		Crashes: crashes,
+		Final:   "adversary",
 	}
 	if len(nonvoters) > 0 {
 		sc.Name += "+nv" + joinU(nonvoters)
@@ -49,6 +50,8 @@ func scenElectVotesOnly(name string, script []string, maxTerm uint64, dev int) *
 var (
 	// established leader n1; the followers believe in it
 	electSeedLeader = []string{"T:1", "run"}
+	// n1 holds one entry more than the others (appended while cut off); nobody knows a leader
+	electSeedLongLog = []string{"T:1", "run", "block:1:2", "block:1:3", "update:1", "run", "disc", "heal:1:2", "heal:1:3"}
 	// ex-leader n1 that just stepped down (lost contact with both followers, which still believe in it)
 	electSeedStepdown = []string{"T:1", "run", "block:1:2", "block:1:3", "runnodc", "heal:1:2", "heal:1:3"}
 )
@@ -58,6 +61,7 @@ func init() {
 	simScenarios["elect-stepdown"] = scenElectSeed("stepdown", electSeedStepdown, 4, 2, false)
 	simScenarios["elect-leader"] = scenElectSeed("leader", electSeedLeader, 4, 2, false)
 	simScenarios["elect-stepdown-votesonly"] = scenElectVotesOnly("stepdown", electSeedStepdown, 4, 3)
+	simScenarios["elect-longlog-votesonly"] = scenElectVotesOnly("longlog", electSeedLongLog, 5, 3)
 	spec := &simCheckSpec{
 		Prop:    "C01",
 		Oracles: []string{"leader", "vote"},
@@ -76,6 +80,7 @@ func init() {
 				scenElectSeed("initial", []string{"T:1"}, 3, 2, false), // by symmetry the first timeout is at n1
 				scenElectSeed("stepdown", electSeedStepdown, 4, 2, false),
 				scenElectVotesOnly("stepdown", electSeedStepdown, 4, 3),
+				scenElectVotesOnly("longlog", electSeedLongLog, 5, 3),
 				scenElectVotesOnly("leader", electSeedLeader, 4, 3),
 				scenElectSeed("leader", electSeedLeader, 4, 3, true),
 				scenElectSeed("initial", nil, 3, 4, true),
